@@ -210,6 +210,11 @@ func checkC13(r *Result) {
 			{Name: "notFound", Cond: func(rel *Term) (bool, bool) {
 				return rel.Op == "call:errors.Is" && len(rel.Args) == 2 && strings.Contains(rel.Args[1].Op, "ErrNotFound"), true
 			}},
+			// the error of the single Voter.Get: tracked so that `err != nil && ...` followed by `err == nil && ...`
+			// does not produce the infeasible mixed path
+			{Name: "readOk", Stable: true, Cond: func(rel *Term) (bool, bool) {
+				return rel.Op == "==" && len(rel.Args) == 2 && rel.Args[0].Op == "ext:1" && rel.Args[0].Has("field:x/dispute/keeper.Keeper.Voter") && rel.Args[1].Op == "const:nil", true
+			}},
 			{Name: "marked", Event: func(in ssa.Instruction) (bool, int8) {
 				return storesConstToField(in, "x/dispute/types.Voter.RewardClaimed", "true"), T
 			}},
